@@ -120,8 +120,25 @@ def rule_a(ctx):
     for s in ast.walk(f.node):
         if isinstance(s, ast.Assign) and isinstance(s.value, ast.Call) and norm(s.value.func) in ("WhiteBalance", "ColorBalance", "AffineBalance") and isinstance(s.targets[0], ast.Name):
             stage = s.targets[0].id
-    if stage is None:
-        # restructured: decided on the folded method, per mode
+    # the callable interface is find_balance followed by the class's own apply_balance (dynamic dispatch: the affine classes add the translation there)
+    for k in m.mod(MOD).classes.values():
+        c = k.methods.get("__call__")
+        if c is None:
+            continue
+        ctx.instance(R)
+        amc = AM(c)
+        pi, ps, pd = c.params[1:4]
+        amc.let("out", f"self.apply_balance({pi})")
+        stmts = [x for x in c.node.body if not (isinstance(x, ast.Expr) and isinstance(x.value, ast.Constant))]
+        ok_call = amc.eq_block(stmts, [f"self.find_balance({ps}, {pd})", "return out"])
+        # named contradiction: the result is computed in place with the scaling instead of through self.apply_balance -- subclasses that
+        # override apply_balance (the affine classes add the translation there) are bypassed
+        calls_ap = any(isinstance(x, ast.Call) and norm(x.func) == "self.apply_balance" for x in ast.walk(c.node))
+        inline = any(isinstance(x, ast.BinOp) and isinstance(x.op, ast.MatMult) and "self.balance_scaling" in (norm(x.left), norm(x.right)) for x in ast.walk(c.node))
+        ctx.ob(R, c.qname, "__call__ = find_balance(src, dst); return self.apply_balance(img)", ok_call,
+               str([norm(x)[:70] for x in stmts]), c.node, evidence=(not calls_ap and inline))
+    if True:
+        # decided on the folded method, per mode, whenever it folds (updates written in place, through helpers, in any order)
         sem = {mode: _fold_accumulate(f, mode) for mode in ("diagonal", "linear", "affine")}
         if all(v is not None for v in sem.values()):
             Ap, bp, An, bn = NC.sym("A_prev"), NC.sym("b_prev"), NC.sym("A_new"), NC.sym("b_new")
@@ -173,23 +190,6 @@ def rule_a(ctx):
                         loc.pop(s.targets[0].id, None)
         return A, b
 
-    # the callable interface is find_balance followed by the class's own apply_balance (dynamic dispatch: the affine classes add the translation there)
-    for k in m.mod(MOD).classes.values():
-        c = k.methods.get("__call__")
-        if c is None:
-            continue
-        ctx.instance(R)
-        amc = AM(c)
-        pi, ps, pd = c.params[1:4]
-        amc.let("out", f"self.apply_balance({pi})")
-        stmts = [x for x in c.node.body if not (isinstance(x, ast.Expr) and isinstance(x.value, ast.Constant))]
-        ok_call = amc.eq_block(stmts, [f"self.find_balance({ps}, {pd})", "return out"])
-        # named contradiction: the result is computed in place with the scaling instead of through self.apply_balance -- subclasses that
-        # override apply_balance (the affine classes add the translation there) are bypassed
-        calls_ap = any(isinstance(x, ast.Call) and norm(x.func) == "self.apply_balance" for x in ast.walk(c.node))
-        inline = any(isinstance(x, ast.BinOp) and isinstance(x.op, ast.MatMult) and "self.balance_scaling" in (norm(x.left), norm(x.right)) for x in ast.walk(c.node))
-        ctx.ob(R, c.qname, "__call__ = find_balance(src, dst); return self.apply_balance(img)", ok_call,
-               str([norm(x)[:70] for x in stmts]), c.node, evidence=(not calls_ap and inline))
     # statements after the stage fit
     body = f.node.body
     idx = max(i for i, s in enumerate(body) if any(isinstance(c, ast.Call) and norm(c.func) == f"{stage}.find_balance" for c in ast.walk(s)))
